@@ -94,9 +94,34 @@ def bytesH : Handler := fun args => do
     if b == b2 && e == e2 then .ok (listReply [b, strBytes (encErr e)]) else .error "Bytes and String skeletons differ"
   | _, _ => .error "unrecognised Bytes/String skeleton"
 
-/-- `model.c12.wf` → are the regenerated skeleton and reader-use facts well-formed -/
+/-- `model.c12.wf` → are the regenerated skeleton, reader-use facts and ownership facts well-formed -/
 def wfH : Handler := fun _ =>
-  .ok (boolBytes (wfSkel sk && wfInputUses Verif.Gen.Wrappers.inputUses))
+  .ok (boolBytes (wfSkel sk && wfInputUses Verif.Gen.Wrappers.inputUses && wfOwnership sk Verif.Gen.Wrappers.retFacts))
+
+/-- `model.c12.own` → are the regenerated ownership facts of `Bytes`/`String` well-formed (fresh local buffer) -/
+def ownH : Handler := fun _ =>
+  .ok (boolBytes (wfOwnership sk Verif.Gen.Wrappers.retFacts))
+
+def decOCall (g : List Bytes) : Except String OCall :=
+  match g with
+  | [kind, input, out, err, ex] => do
+    let e ← decErr err
+    let mf : Option MinFn := if ex == strBytes "1" then some (fun _ => (out, e)) else none
+    .ok { str := kind == strBytes "s", mf, input }
+  | _ => .error "bad call group"
+
+/-- `model.c12.hist calls` (each call = `[b|s, input, plain output, plain error, exists]`) → for every call of the
+    history, in order: what the retained result, the caller's input slice and the error read AFTER the whole
+    history has run in the heap model configured by the regenerated ownership facts (the minifier leaves its
+    working buffer reversed) -/
+def histH : Handler := fun args => do
+  let gs ← argGroups args 0
+  let calls ← gs.mapM decOCall
+  match ownCfgs sk Verif.Gen.Wrappers.retFacts with
+  | none => .error "unrecognised ownership facts of Bytes/String"
+  | some (cb, cs) =>
+    let s := orun cb cs List.reverse {} calls
+    .ok (listReply (s.done.flatMap fun d => [deref s.heap d.outRef, deref s.heap d.inRef, strBytes (encErr d.err)]))
 
 /-- `model.c12.via chunks` → concatenation (what a well-formed leaf minifier sees of a chunked stream) -/
 def viaH : Handler := fun args => do
@@ -105,6 +130,7 @@ def viaH : Handler := fun args => do
 
 def handlers : List (String × Handler) :=
   [("model.c12.acceptsW", acceptsWH), ("model.c12.acceptsR", acceptsRH), ("model.c12.pick", pickH),
-   ("model.c12.whdr", whdrH), ("model.c12.bytes", bytesH), ("model.c12.wf", wfH), ("model.c12.via", viaH)]
+   ("model.c12.whdr", whdrH), ("model.c12.bytes", bytesH), ("model.c12.wf", wfH), ("model.c12.via", viaH),
+   ("model.c12.own", ownH), ("model.c12.hist", histH)]
 
 end Verif.Driver.C12
